@@ -17,7 +17,8 @@ EXPLANATION = (
     "mpc, mpf, Python int, float and complex operands is compared with exact componentwise equality.  mpc_pow_int / z**n for n >= 0 "
     "on its exact path (complex_int_pow on the aligned integer mantissas, then one rounding per part) is compared with the exact "
     "power built by repeated bit-vector multiplication.  Division/reciprocal/negative powers (a few-ulp bound, not correct "
-    "rounding) are outside this check."
+    "rounding) are checked on small shapes only in the form |q*w - z| <= 4 * 2**-prec * |z| (exact integers, cross-multiplied), which "
+    "catches a wrong formula or sign but not a loss of a few guard bits."
 )
 TRUSTED = _c02.TRUSTED
 ASSUMPTIONS = _c02.ASSUMPTIONS + ["relative exponents of the components are concrete per obligation (grid); one base exponent per operand symbolic in +-2^30"]
@@ -97,6 +98,19 @@ def obligations(tier, seed=0):
         add('cmul', prec=2, rnd=rnd, fn='mpc_square', zbc=[11, 9], wbc=[11, 9], zoff=-13, woff=-13, precise=True)
         add('cpow_int', zbc=[10, 10], zoff=12, n=2, prec=1, rnd=rnd)
     add('cpow_int', zbc=[10, 10], zoff=12, n=2, prec=1, rnd='n', entry='op')
+    # division, reciprocal, real / complex: |q*w - z| <= 4 * 2**-prec * |z| (a few ulps in modulus); complex / real: correctly rounded
+    add('cdiv', fn='mpc_div', zbc=[3, 2], wbc=[2, 3], zoff=-1, woff=0, prec=3, rnd='n')
+    add('cdiv', fn='mpc_div', zbc=[2, 3], wbc=[3, 2], zoff=1, woff=-1, prec=3, rnd='f')
+    add('cdiv', fn='mpc_div', zbc=[3, 2], wbc=[2, 3], zoff=-1, woff=0, prec=3, rnd='n', entry='op')
+    add('cdiv', fn='mpc_reciprocal', zbc=[1, 1], wbc=[4, 3], zoff=0, woff=-1, prec=4, rnd='f')
+    add('cdiv', fn='mpc_reciprocal', zbc=[1, 1], wbc=[3, 4], zoff=0, woff=2, prec=4, rnd='n')
+    add('cdiv', fn='mpc_mpf_div', zbc=[3, 1], wbc=[3, 3], zoff=0, woff=0, prec=3, rnd='n')
+    if thorough:
+        for rnd in RNDS:
+            add('cdiv', fn='mpc_div', zbc=[3, 3], wbc=[3, 2], zoff=0, woff=1, prec=4, rnd=rnd)
+            add('cdiv', fn='mpc_div', zbc=[4, 3], wbc=[3, 4], zoff=-2, woff=1, prec=5, rnd=rnd)
+            add('cdiv', fn='mpc_reciprocal', zbc=[1, 1], wbc=[5, 5], zoff=0, woff=0, prec=6, rnd=rnd)
+            add('cdiv', fn='mpc_mpf_div', zbc=[4, 1], wbc=[4, 4], zoff=0, woff=1, prec=5, rnd=rnd)
     # z ** n, n >= 0, exact path (exact size < 10000 bits): each part correctly rounded
     for zbc, zoff, n, prec in [([3, 3], 0, 3, 4), ([3, 2], 1, 4, 5), ([2, 3], -2, 5, 6), ([4, 4], 0, 2, 3), ([5, 3], 2, 1, 2), ([3, 3], 0, 0, 4)]:
         for rnd in RNDS:
